@@ -468,6 +468,16 @@ func (vc *VC) loopEnv(st *State, li *loopInfo, old *Heap) *Env {
 	e := vc.fnEnv(st, old)
 	base := e.locals
 	names := vc.namesAt(li.header)
+	// a parameter that was reassigned before the loop denotes its current value inside loop invariants
+	for _, p := range vc.fn.Params {
+		if v, ok := names[p.Name()]; ok && v != ssa.Value(p) {
+			if x, ok := st.vals[v]; ok && x.T != "" {
+				if _, isAlloc := v.(*ssa.Alloc); !isAlloc {
+					e.vars[p.Name()] = TV{T: x.T, S: goSType(v.Type())}
+				}
+			}
+		}
+	}
 	e.locals = func(ce *Env, name string) (TV, bool) {
 		if name == "_idx" || name == "_done" {
 			for _, ins := range li.header.Instrs {
